@@ -296,3 +296,25 @@ func sortStrings(s []string) {
 }
 
 var _ = ratref.Pow10
+
+// Parse parses a document text into a schema object (not calculated).
+func Parse(text []byte) (*schema.Object, error) {
+	obj := new(schema.Object)
+	if err := json.Unmarshal(text, obj); err != nil {
+		return nil, err
+	}
+	return obj, nil
+}
+
+// FiguresOf marshals a (calculated) object and flattens its figures.
+func FiguresOf(p docgen.Plan, obj *schema.Object) (*Outcome, error) {
+	data, err := json.Marshal(obj)
+	if err != nil {
+		return nil, err
+	}
+	out := &Outcome{JSON: data}
+	if err := Observe(p, out); err != nil {
+		return nil, err
+	}
+	return out, nil
+}
